@@ -18,15 +18,23 @@ def main():
     rep.functions = common.fn_fingerprint(SA.temperature_at_altitude_isa_bada4, SA.pressure_at_altitude_isa_bada4, SA.altitude_from_pressure_isa_bada4,
                                           U.get_SLS_equivalent_fuel_flow, U.get_thrust_cat_cruise, ET.AtmosphericState.__init__, N.BFFM2_EINOx, N.NOx_speciation,
                                           H.EI_HCCO, EI_SOx, PV.EI_PMvol_FOA3, PV.EI_PMvol_FuelFlow, PN.calculate_PMnvolEI_scope11)
-    rep.bounds = dict(points='one or two evaluation points per call (the functions are elementwise)', calibration='four symbolic positive calibration modes (any order, equal values allowed)',
+    rep.bounds = dict(points='one or two evaluation points per call (the functions are elementwise)', calibration='four symbolic positive calibration modes (any order, equal values allowed; HC/CO reference in the quick tier: approach flow above idle flow, any order of the indices)',
                       ranges='altitude 0-30 km, Mach 0-0.95, temperatures 150-330 K, pressures 1-110 kPa, fuel flows from below zero to above take-off flow')
     rep.assumptions = ['exp, log, log10, 10^x, x^c are uninterpreted with sound instantiated axioms (positivity, monotonicity, values at 0/1, pow(pow(x,a),b)=pow(x,ab), log(exp z)=z); UF arguments are normalised and rounded to 12 significant digits',
                        'exact real arithmetic; equalities asserted at relative 1e-9',
-                       'the pressure-to-altitude conversion is checked on the branch that monotonicity of the pressure formula implies (stated as an assumed instance)']
+                       'the pressure-to-altitude conversion is checked on the branch that monotonicity of the pressure formula implies (stated as an assumed instance)',
+                       'linear scaling: for indices multiplied by k > 0 the instances log10(k*x) = log10 k + log10 x (per calibration index) and 10^(a + log10 k) = k * 10^a (per pair of 10^x applications of the two runs) are assumed; both are instances of true identities',
+                       'HC/CO and NOx references are written in the harness from the method descriptions (SAGE/BFFM2 bilinear fit with clamping rules and ACRP low-thrust factor; BFFM2 log-log regression with the Goff-Gratch humidity term at 60 % relative humidity)']
     rep.outside = ['numeric accuracy of libm and any claim needing the value of a transcendental function', 'the cited papers\' own correctness',
                    'MEEM (PMnvol_MEEM): only exercised concretely by the repository tests, not decided here',
-                   'HC/CO and NOx fits: decided here are sign/finiteness, speciation sums and category coupling; agreement of the full log-log fit with an independent transcription and linear scaling in the calibration indices are not decided (UF abstraction too weak)']
-    jobs = [dict(item=k) for k in c12.ITEMS]
+                   'HC/CO and NOx: agreement with the transcription and linear scaling are decided for positive evaluation flows and (NOx) calibration flows that are not all equal; the value returned for a non-positive evaluation flow is only shown finite and non-negative']
+    import itertools
+    jobs = [dict(item=k) for k in c12.ITEMS if k != 'hcco_ref']
+    # HC/CO: the input space is partitioned over jobs (order of idle/approach flows, order of idle/approach indices,
+    # evaluation flow below idle, or at/above idle and below/not below the approach and climb flows)
+    # quick tier: approach calibration flow above the idle flow (the certification order); thorough: also equal and reversed
+    orders = '>' if common.tier() == 'quick' else '<>='
+    jobs += [dict(item='hcco_ref', case=list(c), deadline_s=900 if common.tier() == 'quick' else 3000) for c in itertools.product(orders, '<>=', ('low', 'h00', 'h01', 'h10', 'h11'))]
     results = common.pmap(c12.run_item, jobs)
     cands = []
     for (status, out), job in zip(results, jobs):
@@ -42,7 +50,7 @@ def main():
         for s_ in out['samples'][:1]:
             rep.sample(s_)
         if out['truncated']:
-            rep.inconclusive.append(f"item {job['item']} hit its deadline")
+            rep.inconclusive.append(f"item {job['item']} {job.get('case') or ''} hit its deadline")
         for u in out['unknown'][:3]:
             rep.inconclusive.append(f"{job['item']}: solver unknown on {u}")
         cands += [(job, v) for v in out['violations']]
